@@ -47,7 +47,7 @@ EXC_PARENTS = {
     "FileNotFoundError": "OSError", "NotADirectoryError": "OSError", "IsADirectoryError": "OSError", "PermissionError": "OSError", "OSError": "Exception", "IOError": "Exception",
     "ValueError": "Exception", "TypeError": "Exception", "AssertionError": "Exception",
     "NotImplementedError": "RuntimeError", "RuntimeError": "Exception", "StopIteration": "Exception",
-    "AttributeError": "Exception", "Exception": "BaseException", "KeyboardInterrupt": "BaseException",
+    "AttributeError": "Exception", "FrozenInstanceError": "AttributeError", "Exception": "BaseException", "KeyboardInterrupt": "BaseException",
 }
 
 
